@@ -185,27 +185,24 @@ Definition accepted_off (v : value) : option Z :=
   | VL [VZ 0; _; VL [_; _; _; _; VZ off]] => Some off
   | _ => None
   end.
-(* lenient: the known return value (offset 0, no error) of MeasureClockOffsetSCION for a call without any
-   accepted exchange is passed over here; the kind "scion.allfail" checks it strictly *)
-Definition call_ok (lenient nts : bool) (xs : list pxchg) (v : value) : bool :=
+Definition call_ok (nts : bool) (xs : list pxchg) (v : value) : bool :=
   match v with
   | VL [VZ code; VZ off; VL obs] =>
       xchgs_ok nts xs obs &&
       (if code =? 0 then
-         existsb (fun x => match accepted_off x with Some o => o =? off | None => false end) obs ||
-         (lenient && (off =? 0) && negb (existsb (fun x => match accepted_off x with Some _ => true | None => false end) obs))
+         existsb (fun x => match accepted_off x with Some o => o =? off | None => false end) obs
        else true)
   | _ => false
   end.
-Fixpoint calls_ok (lenient nts : bool) (ops : list pop) (outs : list value) : bool :=
+Fixpoint calls_ok (nts : bool) (ops : list pop) (outs : list value) : bool :=
   match ops with
   | [] => match outs with [] => true | _ => false end
   | PCall xs :: r =>
       match outs with
-      | v :: orest => call_ok lenient nts xs v && calls_ok lenient nts r orest
+      | v :: orest => call_ok nts xs v && calls_ok nts r orest
       | [] => false
       end
-  | _ :: r => calls_ok lenient nts r outs
+  | _ :: r => calls_ok nts r outs
   end.
 
 Definition glue_C05 (k : string) (a o : list value) : option verdict :=
@@ -215,7 +212,7 @@ Definition glue_C05 (k : string) (a o : list value) : option verdict :=
         match parse_cfg cfgv, table_of tabv, parse_ops opsv with
         | Some c, Some t, Some ops =>
             let expected := map (call_value c) (history (open_tab t) c cstate0 (hops_of ops)) in
-            Some (functional expected o (calls_ok (is k "scion.hist") (c_nts c) ops o))
+            Some (functional expected o (calls_ok (c_nts c) ops o))
         | _, _, _ => Some (relational false true)
         end
     | _ => Some (relational false true)
